@@ -390,7 +390,7 @@ def swap_items(self, classes):
     len_shape = new_values.ndim
 
     for r in range(self._nrank_):
-        new_values = np.rollaxis(new_values, -self._drank_-1, len_shape)
+        new_values = np.rollaxis(new_values, -self._rank_, len_shape)
 
     obj = Qube(new_values, self._mask_,
                nrank=self._drank_, drank=self._nrank_, example=self)
